@@ -54,8 +54,19 @@ def step (args : List String) (_ : Unit) (toks : List String) : Unit × String :
       match bytesOfHex st, bytesOfHex blk with
       | some s, some b =>
         match regsOfBytes s with
-        | some r => if b.length = 64 ∧ s.length = 32 then ((), hexOfBytes (Spec.Sha256.out (Spec.Sha256.compress r b)))
-                    else ((), "bad-op")
+        | some r =>
+          if b.length = 64 ∧ s.length = 32 then
+            -- L2: the scratch array W as the selected variant leaves it
+            let w : Option (List UInt32) :=
+              match argVal args "sha" with
+              | "sse2" => sse2W b
+              | "software" => some (Spec.Sha256.schedule b)
+              | _ => none
+            let l2 := match w with
+              | some ws => String.join (ws.map fun x => hexOfNat32 x.toNat)
+              | none => "-"
+            ((), hexOfBytes (Spec.Sha256.out (Spec.Sha256.compress r b)) ++ " | W=" ++ l2)
+          else ((), "bad-op")
         | none => ((), "bad-op")
       | _, _ => ((), "bad-op")
   | "crc" :: align :: chunks =>
